@@ -1038,14 +1038,16 @@ func init() {
 			for _, fld := range []string{"Name", "Value"} {
 				found, okAll := 0, true
 				var pos token.Pos
-				for _, b := range f.Blocks {
-					for _, ins := range b.Instrs {
-						if st, ok := ins.(*ssa.Store); ok {
-							if _, ok := fieldAddrOf(st.Addr, "NameValuePair:"+fld); ok {
-								found++
-								pos = st.Pos()
-								if !decoded(st.Val, 0) {
-									okAll = false
+				for _, g := range fns {
+					for _, b := range g.Blocks {
+						for _, ins := range b.Instrs {
+							if st, ok := ins.(*ssa.Store); ok {
+								if _, ok := fieldAddrOf(st.Addr, "NameValuePair:"+fld); ok {
+									found++
+									pos = st.Pos()
+									if !decoded(st.Val, 0) {
+										okAll = false
+									}
 								}
 							}
 						}
